@@ -996,8 +996,15 @@ def run_C20(ctx):
         return
     sizes = [1024, 8192, 65536] if ctx.quick else [1024, 8192, 65536, 1 << 18, 1 << 20]
     cases = corpora.adversarial(ctx.seed, sizes) + api_main(ctx)[::(4 if ctx.quick else 1)]
+    # the cost model (CostTop.v over the cost copies), extracted on every run
+    import common
+    ok, xlog = common.coq_make(["ExtractC.vo"])
+    cok, cmsg = common.build_cdriver() if ok else (False, common.first_coq_error(xlog))
+    if not cok:
+        ctx.notes.append("cost model not rebuilt from the current tree (%s); last good cdriver used" % cmsg[:200])
+    worst = 0.0
     for force, be in ((None, "rt1"), (2, "rt2"), (3, "rt3")):
-        res = execute("C20", cases, force=force, mode="work", want_model=False)
+        res = execute("C20", cases, force=force, mode="work", want_model=False, want_cost=True, model_be=be)
         ctx.broken += res.errors
         small = [c for c in cases if len(c[6]) <= 70000]
         mres = execute("C20-model", small, force=force, model_be=be)
@@ -1026,12 +1033,27 @@ def run_C20(ctx):
                 why = "trim visited %d bytes for %d bytes of input" % (trimmed, n)
             if why:
                 ctx.fail(c, why, impl=iraw)
+            # cost model: same outcome class, same cursor travel, ticks within the proved bound
+            cm = res.cost.get(cid)
+            if cm is not None and not cm.startswith("skip"):
+                mc = re.search(r"^(\S) ticks=(\d+) travel=(\d+)", cm)
+                if not mc:
+                    ctx.broken.append("cost model output not understood: " + cm[:80])
+                else:
+                    ctx.validated += 1
+                    ccls, ctk, ctr = mc.group(1), int(mc.group(2)), int(mc.group(3))
+                    if ccls != st[0] or ctr != travel:
+                        ctx.mismatch(c, iraw, "cost-model " + cm)
+                    if ctk > 32 * n + 80:
+                        ctx.broken.append("cost model exceeds its proved bound on %s: %s" % (cid, cm))
+                    worst = max(worst, ctk / max(n, 1)) if n >= 64 else worst
             # model: the position reached equals the implementation's travel on Complete
             mm = mres.model.get(cid)
             if mm is not None:
                 ctx.validated += 1
                 if Obs(mm).status != st:
                     ctx.mismatch(c, iraw, mm)
+    ctx.notes.append("cost model: worst ticks per input byte over inputs >= 64 B: %.2f (proved bound: 32 per byte + 80)" % worst)
     time_scaling(ctx)
 
 
